@@ -19,12 +19,14 @@ pub fn tamper_samples(t: Tier) -> usize {
     t.pick(6, 300)
 }
 /// 16 subsets x 3 kinds per sample, plus stored-R_A faults
-const C15_PAR: usize = 24;
+fn c15_par(t: Tier) -> usize {
+    t.pick(24, 480)
+}
 pub fn isolated_c15(t: Tier, i: usize) -> bool {
-    i > runs_c15(t) - 1 - C15_PAR && i % 2 == 0
+    i > runs_c15(t) - 1 - c15_par(t) && i % 2 == 0
 }
 pub fn runs_c15(t: Tier) -> usize {
-    1 + honest_runs(t) + tamper_samples(t) * (16 * TAMPER_KINDS.len() + 2) + C15_PAR
+    1 + honest_runs(t) + tamper_samples(t) * (16 * TAMPER_KINDS.len() + 2) + c15_par(t)
 }
 
 fn class_of(v: &Value) -> &str {
@@ -274,7 +276,7 @@ pub fn run_c15(p: &mut Prng, t: Tier, i: usize, sink: &mut Sink) {
         return;
     }
     let h = honest_runs(t);
-    if i > runs_c15(t) - 1 - C15_PAR {
+    if i > runs_c15(t) - 1 - c15_par(t) {
         concurrent_sessions(p, &mut w);
         w.objs.kex.clear();
         sink.done(w);
